@@ -105,7 +105,8 @@ class K4(K3):
             if f == 'geometry._check_point2patch_visibility':
                 return 1
             if f in CALLEES:
-                return {'leg': 1, 'bake': 1, 'kern': 3}[CALLEES[f][0]]
+                kind, py = CALLEES[f]
+                return kernels.SPEC[py]['ret_rank'] if kind == 'kern' else 1
         return K3.rank_of(self, e)
 
     def shape_of(self, e):
@@ -122,7 +123,10 @@ class K4(K3):
                     return [self.shape_of(e.args[1])[0]]
                 if kind == 'bake':
                     return [self.shape_of(e.args[0])[0]]
-                return self.shape_of(e.args[0])
+                if CALLEES[f][1] == '_collect_receiver_energy':
+                    return self.shape_of(e.args[0])
+                # the exchange kernels: shape of energy_0_directivity + [n_samples]
+                return self.shape_of(e.args[1]) + [self.scalar(e.args[0], {})[0]]
         return K3.shape_of(self, e)
 
     def lam(self, e, env):
@@ -335,4 +339,148 @@ def generate():
     out.append('end Sparrow.Generated.Glue')
     facts = {'_collect_energy_patches': {'statements': sum(1 for _ in ast.walk(t.fn) if isinstance(_, ast.stmt)),
                                          'np_empty_buffers': [n for n, _ in t.junk]}}
+    return '\n'.join(out) + '\n', facts
+
+
+# ====================================================================== calculate_energy_exchange
+SPEC5 = {
+    'lean': 'calculateEnergyExchange',
+    'arrays': {'self_patches_center': 2, 'self_distance_patches_to_source': 1, 'self_energy_init_source': 3,
+               'self_form_factors_tilde': 4, 'self_patch_2_brdf_outgoing_index': 2, 'self_visible_patches': 2},
+    'int_arrays': ['self_patch_2_brdf_outgoing_index', 'self_visible_patches'],
+    'nat_scalars': ['self_n_patches'],
+    'float_scalars': ['speed_of_sound', 'etc_time_resolution', 'etc_duration'],
+    'int_scalars': ['max_reflection_order'], 'bool_scalars': ['recalculate'],
+    # attributes the method WRITES (and keeps otherwise): inputs and outputs of the translation
+    'state': [('self_energy_exchange_etc', 4), ('self_etc_time_resolution', 0), ('self_speed_of_sound', 0), ('self_etc_duration', 0)],
+}
+CALLEES['_energy_exchange_init_energy'] = ('kern', '_energy_exchange_init_energy')
+CALLEES['_energy_exchange'] = ('kern', '_energy_exchange')
+
+
+class K5(K4):
+    """`DirectionalRadiosityFast.calculate_energy_exchange`: the stored attributes it writes are a state tuple
+    (`Option`: `None` before the first run) that goes in and comes out."""
+
+    def __init__(self):
+        self.py = 'DirectionalRadiosityFast.calculate_energy_exchange'
+        self.spec = dict(SPEC5, opaque=[])
+        fn = copy.deepcopy(func(FAST, 'calculate_energy_exchange', cls='DirectionalRadiosityFast'))
+        args = [a.arg for a in fn.args.args]
+        if args != ['self', 'speed_of_sound', 'etc_time_resolution', 'etc_duration', 'max_reflection_order', 'recalculate']:
+            raise TranslationError('%s: parameters are %s' % (self.py, args))
+        self.fn = _Self().visit(fn)
+        self.arr = {}
+        self.scal_nat = set(SPEC5['nat_scalars'])
+        self.scal_float = set(SPEC5['float_scalars'])
+        self.bools, self.opt, self.unwrapped, self.junk = set(), set(), set(), []
+        for a, r in SPEC5['arrays'].items():
+            self.arr[a] = Arr(a, r, ['%s_shape_%d' % (a, k) for k in range(r)], a in SPEC5['int_arrays'])
+        self.state = [n for n, _ in SPEC5['state']]
+        used = {n.id for n in ast.walk(self.fn) if isinstance(n, ast.Name) and n.id.startswith('self_')}
+        known = set(SPEC5['arrays']) | self.scal_nat | set(self.state)
+        if not used <= known:
+            raise TranslationError('%s: reads/writes of self outside the declared ones: %s' % (self.py, sorted(used - known)))
+        for n in ast.walk(self.fn):
+            if isinstance(n, ast.Name) and isinstance(n.ctx, ast.Store) and n.id.startswith('self_') and n.id not in self.state:
+                raise TranslationError('%s: writes %s' % (self.py, n.id))
+
+    def scalar(self, e, env):
+        if isinstance(e, ast.Name) and e.id in SPEC5['int_scalars']:
+            return '%s.toNat' % e.id, 'nat'          # used as an order only where the text has established it is >= 1
+        if isinstance(e, ast.Name) and e.id in SPEC5['bool_scalars']:
+            return e.id, 'bool'
+        if isinstance(e, ast.Call) and dotted(e.func) == 'float' and len(e.args) == 1:
+            t, kd = self.scalar(e.args[0], env)
+            if kd == 'float':
+                return t, 'float'
+        return K3.scalar(self, e, env)
+
+    def state_ty(self, name):
+        r = dict(SPEC5['state'])[name]
+        return 'Option (%s)' % ' → '.join(['Nat'] * r + ['α']) if r else 'Option α'
+
+    def top_cond(self, e):
+        if isinstance(e, ast.BoolOp) and isinstance(e.op, ast.Or):
+            return ' ∨ '.join(self.top_cond(v) for v in e.values)
+        if isinstance(e, ast.Compare) and len(e.ops) == 1 and isinstance(e.ops[0], ast.Is) and \
+                isinstance(e.comparators[0], ast.Constant) and e.comparators[0].value is None and dotted(e.left) in self.state:
+            return '%s.isNone = true' % dotted(e.left)
+        if isinstance(e, ast.Name) and e.id in SPEC5['bool_scalars']:
+            return '%s = true' % e.id
+        raise TranslationError('%s: condition %s' % (self.py, src(e)))
+
+    def state_assign(self, st, env, ind):
+        """`self_x = <kernel call>` / `self_x = float(param)` as a `let self_x : Option … := some …` line."""
+        sp = '  ' * ind
+        if isinstance(st, ast.Assign) and len(st.targets) == 1 and isinstance(st.targets[0], ast.Name) and st.targets[0].id in self.state:
+            name, v = st.targets[0].id, st.value
+            r = dict(SPEC5['state'])[name]
+            if r and isinstance(v, ast.Call) and dotted(v.func) in CALLEES and self.rank_of(v) == r:
+                return name, 'some (%s)' % self.call_text(v, env)
+            if not r:
+                t, kd = self.scalar(v, env)
+                if kd == 'float':
+                    return name, 'some (%s)' % t
+        raise TranslationError('%s: statement %s' % (self.py, src(st)[:80]))
+
+    def block(self, body, env, ind, tail):
+        if not body:
+            return tail
+        st, rest = body[0], body[1:]
+        sp = '  ' * ind
+        cont = lambda env_=env: self.block(rest, env_, ind, tail)
+        if isinstance(st, ast.If) and not st.orelse and isinstance(st.test, ast.BoolOp):
+            c = self.top_cond(st.test)
+            lines, written = [], []
+            for b in st.body:
+                if isinstance(b, ast.If) and isinstance(b.test, ast.Compare) and dotted(b.test.left) in SPEC5['int_scalars'] \
+                        and isinstance(b.test.ops[0], ast.Lt) and isinstance(b.test.comparators[0], ast.Constant) \
+                        and len(b.body) == 1 and len(b.orelse) == 1:
+                    n1, t1 = self.state_assign(b.body[0], env, ind + 2)
+                    n2, t2 = self.state_assign(b.orelse[0], env, ind + 2)
+                    if n1 != n2:
+                        raise TranslationError('%s: branches assign different attributes' % self.py)
+                    lines.append('let %s : %s := if %s < %d then %s else %s' % (n1, self.state_ty(n1), dotted(b.test.left),
+                                                                              b.test.comparators[0].value, t1, t2))
+                    written.append(n1)
+                else:
+                    n1, t1 = self.state_assign(b, env, ind + 2)
+                    lines.append('let %s : %s := %s' % (n1, self.state_ty(n1), t1))
+                    written.append(n1)
+            tup = '(%s)' % ', '.join(self.state)
+            inner = ''.join('  ' * (ind + 2) + ln + '\n' for ln in lines)
+            return (sp + 'let %s :=\n' % tup + sp + '  if %s then\n' % c + inner + '  ' * (ind + 2) + tup + '\n' +
+                    sp + '  else\n' + '  ' * (ind + 2) + tup + '\n' + cont())
+        return K4.block(self, body, env, ind, tail)
+
+    def emit(self):
+        body = self.block(self.fn.body, {}, 1, '  (%s)' % ', '.join(self.state))
+        sig = []
+        for p, r in SPEC5['arrays'].items():
+            sig += ['(%s_shape_%d : Nat)' % (p, k) for k in range(r)]
+            sig.append('(%s : %s)' % (p, ' → '.join(['Nat'] * r + ['Nat' if p in SPEC5['int_arrays'] else 'α'])))
+        sig += ['(%s : Nat)' % p for p in SPEC5['nat_scalars']]
+        sig += ['(%s : %s)' % (n, self.state_ty(n)) for n in self.state]
+        sig += ['(%s : α)' % p for p in SPEC5['float_scalars']]
+        sig += ['(max_reflection_order : Int)', '(recalculate : Bool)']
+        sig += ['(%s : %s)' % (n, t) for n, t in self.junk]
+        ret = ' × '.join('(%s)' % self.state_ty(n) for n in self.state)
+        doc = ('/-- translated from `%s` (%s); the attributes it writes go in and come out as a tuple of `Option`s, the `_init` '
+               'parameter is the content of the `np.empty` buffer -/' % (self.py, FAST))
+        head = ('def %s [Add α] [Sub α] [Mul α] [Div α] [Neg α] [Zero α] [Cmp α] [ToBin α] [Transc α]\n    %s :\n    %s :=\n'
+                % (SPEC5['lean'], ' '.join(sig), ret))
+        return doc + '\n' + head + body + '\n'
+
+
+def generate_exchange():
+    """Generated/ExchangeGlue.lean (its own file: a change to one method must not cost the other its tie)."""
+    out = ['/- GENERATED by harness/translate/gluekernels.py from %s -- do not edit. -/' % FAST,
+           'import Sparrow.Generated.Kernels', 'set_option linter.unusedVariables false', 'namespace Sparrow.Generated.ExchangeGlue',
+           'open Sparrow Sparrow.Generated.Kernels', 'variable {α : Type}', '']
+    t = K5()
+    out.append(t.emit())
+    out.append('end Sparrow.Generated.ExchangeGlue')
+    facts = {'calculate_energy_exchange': {'statements': sum(1 for _ in ast.walk(t.fn) if isinstance(_, ast.stmt)),
+                                           'np_empty_buffers': [n for n, _ in t.junk]}}
     return '\n'.join(out) + '\n', facts
